@@ -31,10 +31,17 @@ long nondet_long_(void);
 static unsigned char IMG2[64];
 static long lval_addr(Node *n);
 static long rval(Node *n) {
-  if (n->kind == ND_NUM) return n->val;
+  if (n->kind == ND_NUM) return (n->ty && n->ty->kind == TY_INT) ? (long)(int)n->val : n->val;    /* a constant of type int denotes its 32-bit value */
   if (n->kind == ND_MUL) return rval(n->lhs) * rval(n->rhs);
   if (n->kind == ND_ADD) return rval(n->lhs) + rval(n->rhs);
-  if (n->kind == ND_CAST) return rval(n->lhs);
+  if (n->kind == ND_CAST) {        /* the conversion add_type inserts for an assignment (integer leaves only) */
+    long v = rval(n->lhs);
+    if (n->ty->kind == TY_BOOL) return v != 0;
+    if (n->ty->size == 1) return n->ty->is_unsigned ? (long)(unsigned char)v : (long)(signed char)v;
+    if (n->ty->size == 2) return n->ty->is_unsigned ? (long)(unsigned short)v : (long)(short)v;
+    if (n->ty->size == 4 && n->ty->kind != TY_PTR) return n->ty->is_unsigned ? (long)(unsigned)v : (long)(int)v;
+    return v;
+  }
   return lval_addr(n);          /* an array-typed lvalue used as a pointer */
 }
 static long lval_addr(Node *n) {
@@ -47,7 +54,8 @@ static void run(Node *n) {
   if (!n || n->kind == ND_NULL_EXPR || n->kind == ND_MEMZERO) return;
   if (n->kind == ND_COMMA) { run(n->lhs); run(n->rhs); return; }
   if (n->kind == ND_ASSIGN) {
-    long a = lval_addr(n->lhs); add_type(n->lhs); int sz = n->lhs->ty->size; uint64_t v = (uint64_t)rval(n->rhs);
+    add_type(n);                      /* inserts the conversion of the right-hand side to the object's type */
+    long a = lval_addr(n->lhs); int sz = n->lhs->ty->size; uint64_t v = (uint64_t)rval(n->rhs);
     if (n->lhs->kind == ND_MEMBER && n->lhs->member->is_bitfield) {
       Member *mb = n->lhs->member; uint64_t unit = 0, mask = (1UL << mb->bit_width) - 1;
       for (int i = 0; i < sz; i++) unit |= (uint64_t)IMG2[a + i] << (8 * i);
@@ -130,6 +138,10 @@ void harness(void) {
   mkmem(&M[1], 1, ty_long, 0, "b", &MN[1]); M[1].is_bitfield = 1; M[1].bit_offset = 33; M[1].bit_width = 20;
   M[0].next = &M[1];
   ST = (Type){TY_STRUCT, 8, 8}; ST.members = M; ty = &ST; size = 8; put(0, 8, ((uint64_t)V[0] & 0x1ffffffffUL) | (((uint64_t)V[1] & 0xfffffUL) << 33));
+#elif SCEN == 14   /* struct { _Bool x; char y; _Bool z; } = { v0, v1, v2 }   (conversion to the member type: _Bool is a test against zero) */
+  static char *txt[] = {"{", "v0", ",", "v1", ",", "v2", "}", ";"};
+  mkmem(&M[0], 0, ty_bool, 0, "x", &MN[0]); mkmem(&M[1], 1, ty_char, 1, "y", &MN[1]); mkmem(&M[2], 2, ty_bool, 2, "z", &MN[2]); M[0].next = &M[1]; M[1].next = &M[2];
+  ST = (Type){TY_STRUCT, 3, 1}; ST.members = M; ty = &ST; size = 3; put(0, 1, (int)V[0] != 0); put(1, 1, (uint64_t)V[1]); put(2, 1, (int)V[2] != 0);
 #else              /* int a[2][2] = { { v0 }, v1, v2 }   (mixed braces / elision) */
   static char *txt[] = {"{", "{", "v0", "}", ",", "v1", ",", "v2", "}", ";"};
   ty = array_of(array_of(ty_int, 2), 2); size = 16; put(0, 4, V[0]); put(8, 4, V[1]); put(12, 4, V[2]);
